@@ -176,13 +176,13 @@ class C07(Prop):
                   "_count = number of Record operations made under it, +Inf bucket = _count, bucket(b) = number of samples <= b, _sum = their sum; the "
                   "accounting invariant total_recorded = count(distribution) + |pending| holds after every operation (C07_every_sample_once) for every "
                   "interleaving of Record / Render / Upkeep; labels are the global ones overridden by the key's (C07_labels_global_overridden_by_key); "
-                  "HELP is the first description of the sanitised name; rendering twice in a row gives the same rendering. The model is tied to /repo by "
-                  "running the real recorder and the model on the same generated histories each run and comparing every render() output.")
+                  "HELP is the first description of the sanitised name; rendering twice in a row gives the same rendering. The sequential model is tied to /repo by "
+                  "running the real recorder and the model on the same generated histories each run and comparing every render() output. Concurrent clause (C07_conc_*, interleaving model over Common/Interleave.v, every schedule, any number of threads and operations; render/run_upkeep take the distributions lock per key: acquire, clear_with, record_samples + release; the snapshot needs the lock free): at every configuration drained ++ resident = recorded as lists and drained = aggregated ++ in flight in the critical section (exactly once); a render shows exactly the values drained before its snapshot step; every record pushed before a clear of its key that precedes the snapshot is in it; _count never decreases between snapshots; counter/gauge readings are the sequential fold of the updates that preceded the load (counters monotone while they do not wrap); two snapshots with no record of the key since a preceding clear agree.")
     level_note = ("Trusted: Coq kernel; hand-written model (tied by differential runs, not by translation). Sequential model: the Registry is one storage per "
                   "key (C06) and an AtomicBucket is its bag of samples (C05); the concurrent clause is checked by three free-running stress engines only (final totals under concurrent recording, which inherits "
                   "C05's open finding: a sample pushed into a just-detached block is lost - accepted as that finding only up to recorders x drains per key, "
                   "a larger shortfall or any excess is a violation; and visibility of completed records to renders concurrent with upkeep/render, where nothing is excused; and counter/gauge handle updates from 4-8 threads released together, read back through render(), where only linearisable outcomes pass). "
-                  "Render/Upkeep are atomic steps of the model; that rests on the drain running under the distributions write lock (stated at Model.v [step]), tested, not proved. Doubles are restricted to quarter-exact values below 2^50 so that "
+                  "Render/Upkeep are atomic steps of the SEQUENTIAL model; the interleaving model (ConcModel.v) splits them into the code's steps with the lock explicit and proves the clause for every schedule, ASSUMING that each single step is atomic: get_or_create (C06), each handle RMW (C04), push and clear_with (C05, outside its open late-claim class). On the code clause (a) therefore holds only up to the late-claim losses, bounded as engine 1 bounds them (recorders x drains per key). The interleaving model is tied to the code by the stress engines only (the exporter has no yield points for schedule replay), like C19's Conc model and C11's Wake.v; numbers in it are exact integers; describe/labels/rendering text are not in it. Doubles are restricted to quarter-exact values below 2^50 so that "
                   "f64 addition is integer addition (C07_sum_once states the accounting for any commutative monoid; rounding is not modelled); the "
                   "Display/parse round trip is an oracle tested on every rendered value and on a stream of arbitrary bit patterns set on gauges. HashMap order: "
                   "renderings are compared as multisets of sample records, each carrying its family header (family grouping itself is C08's). Summary "
